@@ -15,6 +15,21 @@ class AnalysisError(Exception):
     an anchor vanished.  Checks turn this into exit code 2 (never a pass)."""
 
 
+class HistoryDependence(AnalysisError):
+    """The walked code returns a value read from state that an earlier call wrote under a key that does not determine it
+    (or absorbs data into a shared hash object): the result depends on the call history.  Reported as a violation of the
+    property whose analysis walked that code."""
+
+    def __init__(self, construct, key, detail, where):
+        super().__init__(f"{where}: {construct} [{key}] {detail}")
+        self.construct, self.key, self.detail, self.where = construct, key, detail, where
+        HISTORY.append(self)
+
+
+HISTORY = []          # HistoryDependence findings of this run
+SHARED_SEEN = {}      # (module, name) -> (kind, detail, function) for every shared container the walk read
+
+
 class AbstractValue:
     """Marker base class: values the evaluator must not treat as concrete."""
     __slots__ = ()
